@@ -1790,3 +1790,239 @@ def suite_results(run, rng, T):
         shutil.rmtree(tmp, ignore_errors=True)
     T["result_stats"] = stats
     return batch, batch.flush()
+
+
+# =====================================================================================
+# table theorems proved on every run over the generated tables (finite, exhaustive)
+# =====================================================================================
+def fixed_arity_vars(r):
+    """for a modelled row without *args: ([(coq var, type)], positional argument terms) in constructor order"""
+    vs, pos = [], []
+    qf = {f for k, f in r["targets"] + r["controls"] if k == "one"}
+    lf = {f for k, f in r["targets"] + r["controls"] if k == "list"}
+    for n, kind, d in r["formals"]:
+        if kind != "FPos":
+            return None
+        v = "v_" + n
+        if n in qf:
+            vs.append((v, "Z"))
+            pos.append(f"VA (AInt {v})")
+        elif n in lf:
+            return None
+        else:
+            vs.append((v, "val"))
+            pos.append(v)
+    return vs, pos
+
+
+def table_theorems(run, tab, sweep_findings):
+    """name_table_ok (+ _partial/_refuted) and raw_roundtrip_<Class> (+ _refuted) over Gen.v"""
+    rows = tab["rows"]
+    # ---------- triage by evaluation: which rows satisfy the boolean table checks
+    items = []
+    for n, r in rows.items():
+        if r["label"] is not None:
+            items.append((f"label:{n}", f"label_row_ok rows specials row_{n}"))
+    tri, _ = run.coq_bools("tables_triage.v", HEADER + "From QV Require Import C13.Proofs.\n", items)
+    if tri is None:
+        run.oblige("tables_triage", False, "generated")
+        run.find("tables:triage", "the table checks do not compile against the generated tables", {"log": run.notes.get("coq_errors")}, concrete=False)
+        return
+    bad_labels = sorted(k.split(":")[1] for k, v in tri.items() if not v)
+    good_labels = sorted(k.split(":")[1] for k, v in tri.items() if v)
+    thms = []
+    nm = lambda xs: clist([cstr(x) for x in xs])
+    # per labelled class: the constructor has the standard shape (a universally quantified fact about the model)
+    for n in good_labels:
+        r = rows[n]
+        if any(k == "FVar" for _, k, _ in r["formals"]):
+            thms.append((f"label_class_{n}", f"star_row row_{n} /\\ label_resolves rows specials row_{n}", "split; [eexists; repeat split; reflexivity | vm_compute; reflexivity]."))
+        else:
+            nq = len(r["targets"]) + len(r["controls"])
+            thms.append((f"label_class_{n}", f"std_ctor bases row_{n} {len(r['controls'])} {nq} {len(r['params'])} /\\ label_resolves rows specials row_{n}",
+                         "split; [std_ctor_tac | vm_compute; reflexivity]."))
+    thms.append(("name_table_ok_partial",
+                 f"forallb (fun r => match rlabel r with None => true | Some _ => label_row_ok rows specials r || mem_str (rname r) {nm(bad_labels)} end) rows = true",
+                 "vm_compute; reflexivity."))
+    if bad_labels:
+        w = bad_labels[0]
+        thms.append(("name_table_ok_refuted",
+                     f"exists r l, In r rows /\\ rlabel r = Some l /\\ find_row (qibo_gate_name specials l) rows = None",
+                     f"exists row_{w}, {cstr(rows[w]['label'])}; split; [vm_compute; tauto | split; vm_compute; reflexivity]."))
+        run.refuted.append("name_table_ok")
+        run.not_proved.append("name_table_ok (full): false for " + ", ".join(bad_labels) + " -- see name_table_ok_refuted; name_table_ok_partial excludes exactly these classes")
+        for w in bad_labels:
+            if not any(k in (f"qasm:import_rejects:{w}", f"qasm:differs:{w}") for k in sweep_findings):
+                run.find(f"name_table:{w}", f"label of {w} does not pass the table check but the real round trip of {w} did not fail", {"class": w}, concrete=False)
+    else:
+        thms.append(("name_table_ok", "forallb (fun r => match rlabel r with None => true | Some _ => label_row_ok rows specials r end) rows = true", "vm_compute; reflexivity."))
+    # ---------- raw round trip per class
+    enc = Enc()
+    tri_items, insts = [], {}
+    for n, r in rows.items():
+        if n in ABSTRACT or n in ("M", "FusedGate"):
+            continue
+        try:
+            g, _ = build(n, placement(arity(n)), [0.4375, 0.21875, 0.09375, 3])
+            G = enc.gate(g)
+            insts[n] = G
+            tri_items.append((n, f"match from_dict' (raw' {G}) with OK g' => gate_view_eqb g' {G} | Err _ => false end"))
+        except Exception:
+            continue
+    tri2, _ = run.coq_bools("raw_triage.v", HEADER, tri_items)
+    if tri2 is None:
+        run.oblige("raw_triage", False, "generated")
+        run.find("tables:raw_triage", "raw triage does not compile", {}, concrete=False)
+        tri2 = {}
+    raw_bad = []
+    for n, ok in sorted(tri2.items()):
+        r = rows[n]
+        fv = fixed_arity_vars(r) if r["modelled"] else None
+        if ok and fv:
+            vs, pos = fv
+            binders = " ".join(f"({v} : {t})" for v, t in vs)
+            thms.append((f"raw_roundtrip_{n}",
+                         f"forall {binders} (g : gate), construct' row_{n} {clist(pos)} [] = OK g -> raw_rt_ok (from_dict' (raw' g)) g",
+                         "raw_rt_tac."))
+        elif ok:
+            # variadic constructors / list-valued qubit arguments: proved per arity, labelled as bounded
+            thms.append((f"raw_roundtrip_{n}_instance", f"match from_dict' (raw' {insts[n]}) with OK g' => gate_view_eqb g' {insts[n]} | Err _ => false end = true",
+                         "vm_compute; reflexivity."))
+            run.not_proved.append(f"raw_roundtrip_{n}: only checked on instances (constructor takes *args or qubit lists); the sweep covers arities 1..6")
+        else:
+            raw_bad.append(n)
+            thms.append((f"raw_roundtrip_{n}_refuted",
+                         f"match from_dict' (raw' {insts[n]}) with OK g' => gate_view_eqb g' {insts[n]} | Err _ => false end = false",
+                         "vm_compute; reflexivity."))
+            run.refuted.append(f"raw_roundtrip_{n}")
+            if not any(k.startswith("raw:") and k.split(":")[2].split(".")[0] == n for k in sweep_findings):
+                run.find(f"raw_table:{n}", f"model says Gate.raw of {n} does not round trip but the real run did not fail", {"class": n}, concrete=False)
+    T_ok, out = run.coq_theorems("table_theorems.v", HEADER + "From QV Require Import C13.Proofs.\n", thms, timeout=900)
+    if T_ok:
+        for t in thms:
+            run.oblige(t[0], True, "generated-table-theorem")
+    else:
+        # find which ones fail individually
+        for t in thms:
+            ok1, _ = run.coq_theorems(f"thm_{t[0]}.v", HEADER + "From QV Require Import C13.Proofs.\n", [t], timeout=300)
+            run.oblige(t[0], ok1, "generated-table-theorem")
+            if not ok1:
+                run.find(f"theorem:{t[0]}", f"generated theorem {t[0]} is no longer provable: {t[1][:300]}", {"statement": t[1]}, concrete=False)
+    run.notes["labels_failing_table_check"] = bad_labels
+    run.notes["classes_failing_raw_roundtrip_in_model"] = raw_bad
+
+
+# =====================================================================================
+# main / replay
+# =====================================================================================
+RULE = ("cases are JSON specs executed against the real qibo: (qasm) one circuit per gate class x 8 parameter kinds "
+        "(python ints, -0.0, 1e-300/denormals, 1e300/max float, 16-digit floats, pi multiples, numpy floats, mixed) on "
+        "non-ascending qubits, 40+ register layouts/names, seeded random circuits; (gate_dict) every class x kinds x "
+        "{plain, 1-3 controls, dagger, updated parameters, non-trainable} through raw and through json text, M in all keyword "
+        "forms; (circuit_dict) every class inside a circuit + layouts + random circuits; (bind) constructor calls with every "
+        "positional/keyword split and malformed calls; (program) QASM programs with several registers, expressions and custom "
+        "gates; (result) state / outcomes / both x what was computed before the dump x 3 import paths. A case counts as "
+        "non-trivial when the circuit has at least one gate; distinct = distinct spec (sha1 of the canonical JSON).")
+
+
+def run_all(run):
+    rng = random.Random(run.seed)
+    T = {}
+    run.trusted += ["Coq 8.16.1 kernel, vm_compute", "harness/c13.py introspection that regenerates the class table, the label table, "
+                    "REQUIRED_FIELDS_INIT_KWARGS and the _qibo_gate_name cases from /repo on every run",
+                    "text layer NOT modelled: str(float), openqasm3 lexer/parser, json, np.save/np.load (exercised by the real round trips only)",
+                    "the Python encoder of real objects into Coq terms (Enc) used for the model-vs-implementation comparisons"]
+    run.assumptions += ["a float is identified with its binary64 bit pattern; printing and re-parsing a float is the identity (checked on every exported parameter of the sweep, not proved)",
+                        "constructor value constraints (MS theta range, bit-flip dictionaries) are outside the model",
+                        "circuits are well formed: all qubits < nqubits (Circuit.add does not check control qubits)"]
+    tab = gen_tables(run)
+    run.oblige("Gen.v (tables regenerated from /repo) type-checks against C13/Model.v", tab["ok"], "generated")
+    if not tab["ok"]:
+        run.find("tables:gen", "generated tables do not type-check: " + tab["log"][-400:], {}, concrete=False)
+        return T
+    unm = sorted(n for n, r in tab["rows"].items() if not r["modelled"] and n not in ABSTRACT)
+    T["classes"] = len(tab["rows"])
+    T["classes_outside_constructor_model"] = {n: tab["rows"][n]["why"] for n in unm}
+    suites = [("qasm", suite_qasm), ("gate_dict", suite_gate_dict), ("circuit_dict", suite_circuit_dict),
+              ("bind", suite_bind), ("results", suite_results)]
+    suite_programs(run, rng, T)
+    for name, fn in suites:
+        batch, res = fn(run, rng, T)
+        bad = [k for k, v in res.items() if v is False and "modelled" not in k]
+        broken = [k for k, v in res.items() if v is None]
+        unmod = [k for k, v in res.items() if v is False and "modelled" in k]
+        T[f"{name}_model_comparisons"] = {"total": len(res), "agree": sum(1 for v in res.values() if v is True) - 0,
+                                          "model_declines": len(unmod), "disagree": len(bad), "not_evaluated": len(broken)}
+        run.oblige(f"model == implementation on all {name} cases", not bad and not broken, "correspondence")
+        for k in bad[:5]:
+            run.find(f"model_mismatch:{name}:{k}", f"Coq model and implementation disagree on {k}", {"suite": name, "label": k, "spec": batch.meta.get(k)}, concrete=False)
+        if broken:
+            run.find(f"model_eval:{name}", f"{len(broken)} model comparisons could not be evaluated", {"suite": name}, concrete=False)
+    table_theorems(run, tab, {f.key for f in run.findings})
+    # static theorems
+    ok, ass = vcore.static_assumptions("C13/Props")
+    for t in vcore.props_theorems("C13/Props.v"):
+        run.oblige(t, ok, "static-theorem")
+        if t.endswith("_refuted"):
+            pass
+    if ok:
+        for t, a in ass.items():
+            if not a.startswith("Closed"):
+                run.axioms.add(a[:120])
+        T["static_print_assumptions"] = {t: a[:80] for t, a in ass.items()}
+    run.notes.update(T)
+    for k in ("model_skipped",):
+        if k in run.notes:
+            run.notes[k] = {"count": len(run.notes[k]), "first": run.notes[k][:6],
+                            "why": "cases whose variant cannot be built (e.g. controlled_by on a channel): no model comparison, the real round trip still ran where possible"}
+    return T
+
+
+def main(run):
+    run_all(run)
+    run.not_proved += ["qasm_roundtrip (full): refuted by collapsing measurements (qasm_roundtrip_refuted) and by the iSWAP label; proved: qasm_roundtrip_partial",
+                       "circuit_dict_roundtrip (full): refuted by measurement bases other than Z (circuit_dict_roundtrip_refuted)",
+                       "result_roundtrip (full): refuted when only frequencies were computed (result_roundtrip_refuted)",
+                       "text layer (float printing/parsing, openqasm3, json, numpy files), custom gate definitions and parameter expressions: exercised by the real round trips, not proved"]
+    return run.finish(level="proof", rule=RULE)
+
+
+def replay(run, data):
+    rp = data.get("replay", {})
+    suite = rp.get("suite")
+    key = data["key"]
+    again = None
+    if suite == "qasm":
+        cat, detail, _ = qasm_outcome(rp["spec"])
+        again = cat in ("import_rejects", "differs")
+    elif suite == "gate_dict":
+        cat, detail, _ = dict_outcome(rp["spec"], rp["via"])
+        again = cat in ("import_rejects", "differs")
+    elif suite == "circuit_dict":
+        cat, detail, _ = circuit_dict_outcome(rp["spec"], rp["via"])
+        again = cat in ("import_rejects", "differs")
+    elif suite == "result":
+        tmp = tempfile.mkdtemp(prefix="c13_")
+        try:
+            cat, detail, _ = result_outcome(rp["spec"], rp["via"], tmp)
+        finally:
+            shutil.rmtree(tmp, ignore_errors=True)
+        again = cat in ("import_rejects", "differs")
+    elif suite == "program":
+        from qibo import Circuit
+        try:
+            c = Circuit.from_qasm(rp["text"])
+            c2 = Circuit.from_qasm(c.to_qasm())
+            detail = "; ".join(qasm_equiv(c, c2))
+            again = bool(detail)
+        except Exception as e:
+            detail, again = f"{type(e).__name__}: {e}", True
+    else:
+        run_all(run)
+        return run.finish(level="proof", rule="full re-run (the recorded item has no single input)")
+    run.case(["replay", rp])
+    run.sample({"replayed": rp, "reproduces": again, "detail": detail})
+    run.oblige("replayed case executed", True, "replay")
+    if again:
+        run.find(key, data.get("what", "") + " [replayed: " + str(detail)[:200] + "]", rp)
+    return run.finish(level="proof", rule="replay of one recorded case against the real implementation")
